@@ -1,0 +1,6 @@
+//go:build !verif
+
+package trie
+
+// orderKeys is a verification hook; it does nothing in regular builds.
+func orderKeys([]byte) {}
